@@ -177,6 +177,12 @@ fn main() {
                 arg(a, "--only").map(|s| s.parse().unwrap()),
             )
         }
+        Some("c11size") => {
+            for t in [(1u64 << 20), (1 << 20) - 1, (1 << 20) - 2, 1000, 1001] {
+                let m = c11::machine_of_size(t);
+                println!("{} -> {:?}", t, m.map(|m| (m.states.len(), m.validate().is_ok())));
+            }
+        }
         Some("c11") => {
             let a = &args[2..];
             c11::run(
